@@ -56,6 +56,8 @@ type Case struct {
 	// Plugin "ti-only": the signature names an installed verification plugin that owns the
 	// trusted-identity check only (and answers success); revocation stays notation's own business
 	Plugin string `json:"plugin,omitempty"`
+	// Ctor "legacy": the verifier is built with the deprecated NewWithOptions (same options)
+	Ctor string `json:"ctor,omitempty"`
 }
 
 var (
@@ -165,7 +167,13 @@ func check(c Case) (string, string) {
 		opts.PluginManager = &mocks.Manager{Plugins: map[string]pf.Plugin{"c05-plugin": &mocks.Plugin{Name: "c05-plugin", Version: "1.0.0",
 			Capabilities: []pf.Capability{pf.CapabilityTrustedIdentityVerifier}}}}
 	}
-	v, err := verifier.NewVerifierWithOptions(ts, opts)
+	var v notation.Verifier
+	var err error
+	if c.Ctor == "legacy" {
+		v, err = verifier.NewWithOptions(opts.OCITrustPolicy, ts, opts.PluginManager, opts)
+	} else {
+		v, err = verifier.NewVerifierWithOptions(ts, opts)
+	}
 	if err != nil {
 		return "harness", "verifier construction: " + err.Error()
 	}
@@ -344,7 +352,10 @@ func record(rec *stats.Recorder, c Case) {
 	if c.Plugin != "" {
 		cl = append(cl, "identity-only-plugin")
 	}
-	rec.Case(cl, nt, stats.Fingerprint(c.Subjects, c.Cancel, c.Validity, c.Plugin, fmt.Sprint(c.Vector), fmt.Sprint(c.Warm), fmt.Sprint(c.Decor), c.ValErr, c.ErrWithR, c.Iface, c.Action, c.Base, c.Scheme, c.Format), func() any { return c })
+	if c.Ctor != "" {
+		cl = append(cl, "constructor="+c.Ctor)
+	}
+	rec.Case(cl, nt, stats.Fingerprint(c.Subjects, c.Cancel, c.Validity, c.Plugin, c.Ctor, fmt.Sprint(c.Vector), fmt.Sprint(c.Warm), fmt.Sprint(c.Decor), c.ValErr, c.ErrWithR, c.Iface, c.Action, c.Base, c.Scheme, c.Format), func() any { return c })
 }
 
 func evaluate(t stats.Failer, rec *stats.Recorder, c Case) {
@@ -438,6 +449,7 @@ func TestC05_Decorated(t *testing.T) {
 			c.Validity = rp.Pick(rt, "validity", "", "", "", "expired-nonleaf")
 		}
 		c.Plugin = rp.Pick(rt, "plugin", "", "", "", "ti-only")
+		c.Ctor = rp.Pick(rt, "ctor", "", "", "legacy")
 		if rapid.IntRange(0, 11).Draw(rt, "cancel") == 0 {
 			c.Cancel = rp.Pick(rt, "cancelKind", "answer", "ctxerr")
 		}
